@@ -115,7 +115,9 @@ def judge_kernel(ctx, kernel, args, res, exc, origin):
         cls32 = ops.elem_dtype(data) == sc.DType.float32
         # mixed precision: a single-precision geometry operand limits the attainable
         # accuracy to single precision although the result class follows the data operand
-        any32 = any(ops.elem_dtype(args[n]) == sc.DType.float32 for n in names)
+        # the precision class of the result is the one of the data operand (the documented dtype
+        # contract): a float32 geometry operand is an exact input of a double-precision computation
+        any32 = cls32
         tol = TOL32 if any32 else TOL64
         want_dtype = sc.DType.float32 if cls32 else sc.DType.float64
         a_si = {n: ops.align(args[n], res).astype(si.LD) * si.factor(ops.elem_unit(args[n]))
